@@ -38,7 +38,7 @@ Proof. exact other_areas_irrelevant_proof. Qed.
 Definition ex_bus : bus :=
   let z := snew (fun _ => 0) in
   let io := sset (sset (sset z 0x20 0xff) 0x21 0xff) 0x23 0xff in
-  mkBus z z io z z z 0 nil timer0.
+  mkBus z z io z z z z 0 nil timer0.
 Example price_example :
   dom_c19 (reg ex_bus DRCRA) 4 3 0x200000 = true /\
   calc_state_with_addr ex_bus 4 3 0x200000 = Some 36.
